@@ -1,5 +1,7 @@
 From Coq Require Import Extraction ExtrOcamlBasic.
-From PM Require Import Base.Bytes Base.Outcome Base.ExtractBase Model.ScriptAst Model.Enqueue Model.Script Model.Client.
+From PM Require Import Base.Bytes Base.Outcome Base.ExtractBase Model.ScriptAst Model.Enqueue Model.Script Model.Client Model.CliWorld Spec.Proto.
 Cd "Extract".
-Extraction "climodel.ml" dlib_anchor parse_input act_finish telemetry diag new_client arg_find arg_update.
+Extraction "climodel.ml" dlib_anchor parse_input act_finish telemetry diag new_client arg_find arg_update
+  wstep wrun world0 find_client run1 events_ok
+  Proto.ok Proto.ok_prefix Proto.ok_rest Proto.tokens Proto.terminals Proto.documented_codes.
 Cd "..".
